@@ -321,6 +321,11 @@ def concretize(r):
     else:
         home = r['tree']['cases'][r['tgt'] - 1]['home']
         argv = (['--suite', sname[home]] if way == 'option' else []) + [cpath[r['tgt']]]
+    if way == 'option' and not default_names:
+        # "--suite FILE ... overrides the default suite file": a DECOY exactly.suite beside the case, whose contents
+        # would make the case fail, must contribute nothing
+        d = os.path.dirname(cpath[r['tgt']])
+        files[os.path.join(d, 'exactly.suite')] = '[cases]\n\n[setup]\n$ false\n[assert]\n$ false\n'
     if way == 'plain':      # no suite at all
         files = {p: t for p, t in files.items() if not p.endswith('.suite')}
     return dict(files=files, argv=argv, cases={str(n): p for n, p in cpath.items()})
